@@ -375,9 +375,22 @@ func (c ProtoSliceWrapper) Size(ptr unsafe.Pointer, tag []byte) int {
 	h := *(*sliceHeader)(ptr)
 	var l int
 	for i := 0; i < h.Len; i++ {
-		l += c.Underlying.Size(unsafe.Add(h.Data, uintptr(i)*c.EltSize), tag)
+		eptr := unsafe.Add(h.Data, uintptr(i)*c.EltSize)
+		if c.isNilPointer(eptr) {
+			l += len(tag) + 1
+			continue
+		}
+		l += c.Underlying.Size(eptr, tag)
 	}
 	return l
+}
+
+// isNilPointer reports whether the element is a nil pointer. Such an element
+// is written as an empty element (it reads back as a zero value), as it is in
+// the WTSlice form; leaving it out would silently shorten the slice.
+func (c ProtoSliceWrapper) isNilPointer(eptr unsafe.Pointer) bool {
+	pw, ok := c.Underlying.(PointerWrapper)
+	return ok && pw.Omit(eptr)
 }
 
 // Append appends the data for this slice, including repeated tags and
@@ -385,7 +398,13 @@ func (c ProtoSliceWrapper) Size(ptr unsafe.Pointer, tag []byte) int {
 func (c ProtoSliceWrapper) Append(data []byte, ptr unsafe.Pointer, tag []byte) []byte {
 	h := *(*sliceHeader)(ptr)
 	for i := 0; i < h.Len; i++ {
-		data = c.Underlying.Append(data, unsafe.Pointer(uintptr(h.Data)+uintptr(i)*c.EltSize), tag)
+		eptr := unsafe.Pointer(uintptr(h.Data) + uintptr(i)*c.EltSize)
+		if c.isNilPointer(eptr) {
+			data = append(data, tag...)
+			data = append(data, 0)
+			continue
+		}
+		data = c.Underlying.Append(data, eptr, tag)
 	}
 	return data
 }
